@@ -76,7 +76,7 @@ PROPS["C03"] = {
     "assumptions": ["Kani models the dev profile (overflow checks on)"],
     "harnesses": [
         H(KC, "c03::c03_canonical_v4_identity", "IPv4 source stored unchanged; its v4-mapped v6 form canonicalises to the same peer", "all IPv4 addr+port", ["CanonicalSocketAddr::new", "get_ipv6_mapped"]),
-        H(KH, "c03::c03_forwarded_1_1", "HTTP behind a reverse proxy: real parse_request -> parse_forwarded_header on a request with two occurrences of a header whose name may or may not be the configured one: peer address == last address of the LAST occurrence of the configured header; refused when the header is absent", "two header lines 'X-Forwarded-Fo?: D.D.D.D', symbolic digits and names", ["aquatic_http::workers::socket::request::{parse_request,parse_forwarded_header}", "httparse::Request::parse", "std IpAddr parser"], cost=300),
+        H(KH, "c03::c03_forwarded_1_1", "HTTP behind a reverse proxy: real parse_request -> parse_forwarded_header on a request with two occurrences of a header whose name may or may not be the configured one: peer address == last address of the LAST occurrence of the configured header; refused when the header is absent", "two header lines 'X-Forwarded-Fo?: D.D.D.D', symbolic digits and names", ["aquatic_http::workers::socket::request::{parse_request,parse_forwarded_header}", "httparse::Request::parse", "std IpAddr parser"], cost=300, tier="thorough"),
         H(KH, "c03::c03_forwarded_2_2", "as above, each value a list of two addresses (', ' and ',' separators)", "two header lines with two addresses each", ["parse_forwarded_header"], cost=400, tier="thorough"),
         H(KW8, "c03::c03_ws_canonical_family", "WebTorrent: IpVersion::canonical_from_ip - IPv4-mapped IPv6 source is family V4, other IPv6 V6, IPv4 V4", "all addresses, full width", ["aquatic_ws::common::IpVersion::canonical_from_ip"], cost=20),
         H(KC, "c03::c03_canonical_v6_total", "v6 source becomes v4 exactly when it is ::ffff:a.b.c.d, with embedded octets and port; otherwise unchanged", "all IPv6 addr+port+flow+scope", ["CanonicalSocketAddr::new"]),
@@ -162,20 +162,20 @@ PROPS["C15"] = {
         H(KWP, "c15m::c15m_%s" % n, "message round trip: real serde_json::to_string (what to_ws_message calls) of a message of concrete SHAPE (" + d + ") with symbolic leaf values, read back through the derive-generated deserialisers "
           "(untagged enums, action discrimination, ScrapeRequestInfoHashes, TwentyByteVisitor) by serde_json::from_str: equal to the original", d, ["InMessage Serialize/Deserialize derives", "serde_json::{to_string,from_str}", "TwentyByteVisitor"], cost=c, tier=t)
         for n, d, c, t in (
-            ("scrape_none", "scrape without hashes", 60, "quick"),
-            ("scrape_single", "scrape with a single hash (string form)", 100, "quick"),
-            ("scrape_multi1", "scrape with a one-element hash array (must stay an array)", 100, "quick"),
+            ("scrape_none", "scrape without hashes", 60, "thorough"),
+            ("scrape_single", "scrape with a single hash (string form)", 100, "thorough"),
+            ("scrape_multi1", "scrape with a one-element hash array (must stay an array)", 100, "thorough"),
             ("scrape_multi2", "scrape with two hashes", 150, "thorough"),
-            ("announce_plain", "announce, no offers/answer; left, event symbolic incl. absent", 300, "quick"),
+            ("announce_plain", "announce, no offers/answer; left, event symbolic incl. absent", 300, "thorough"),
             ("announce_offer", "announce with one offer", 400, "thorough"),
             ("announce_answer", "announce with an answer", 400, "thorough"),
             ("out_error_noaction", "OutMessage: error reply without action, info hash present or absent", 200, "thorough"),
             ("out_error_announce", "OutMessage: error reply to an announce", 200, "thorough"),
-            ("out_error_scrape", "OutMessage: error reply to a scrape (must not decode as a scrape reply)", 200, "quick"),
-            ("out_announce", "OutMessage: announce reply, symbolic counters < 1000", 300, "quick"),
+            ("out_error_scrape", "OutMessage: error reply to a scrape (must not decode as a scrape reply)", 200, "thorough"),
+            ("out_announce", "OutMessage: announce reply, symbolic counters < 1000", 300, "thorough"),
             ("out_offer", "OutMessage: forwarded offer", 400, "thorough"),
             ("out_answer", "OutMessage: forwarded answer", 400, "thorough"),
-            ("out_scrape_empty", "OutMessage: scrape reply without files", 100, "quick"),
+            ("out_scrape_empty", "OutMessage: scrape reply without files", 100, "thorough"),
         )
     ],
 }
@@ -230,19 +230,19 @@ PROPS["C14"] = {
         H(KHP, "c14q::c14q_%s" % n, "real query-string parser on a concrete LAYOUT (" + d + ") with symbolic VALUES (digits of every number, one %XY unit with arbitrary hex digits and one raw URL-safe char per identifier): "
           "accepted, every field == the value the text spells (identifiers decoded exactly, optional fields absent iff not sent, unknown keys ignored)", d, ["AnnounceRequest::parse_query_string", "ScrapeRequest::parse_query_string", "Request::parse_http_get_path", "memchr (real SSE2 path; cpuid stubbed)"], cost=c, tier=t)
         for n, d, c, t in (
-            ("announce_started", "writer order, all optional fields, event=started", 200, "quick"),
+            ("announce_started", "writer order, all optional fields, event=started", 200, "thorough"),
             ("announce_stopped", "writer order, event=stopped", 200, "thorough"),
             ("announce_completed", "writer order, event=completed", 200, "thorough"),
             ("announce_noevent", "writer order, no event", 200, "thorough"),
             ("announce_path", "through Request::parse_http_get_path('/announce?...')", 200, "thorough"),
-            ("announce_reversed", "reversed key order, unknown key in the middle, no optional field", 200, "quick"),
-            ("announce_missing_port", "mandatory field port missing -> rejected", 100, "quick"),
+            ("announce_reversed", "reversed key order, unknown key in the middle, no optional field", 200, "thorough"),
+            ("announce_missing_port", "mandatory field port missing -> rejected", 100, "thorough"),
             ("announce_missing_uploaded", "mandatory field uploaded missing -> rejected", 100, "thorough"),
             ("announce_missing_downloaded", "mandatory field downloaded missing -> rejected", 100, "thorough"),
             ("announce_missing_left", "mandatory field left missing -> rejected", 100, "thorough"),
-            ("announce_port5", "5-digit port: accepted iff <= 65535", 200, "quick"),
-            ("scrape_k1", "scrape, 1 hash", 100, "quick"),
-            ("scrape_k2", "scrape, 2 hashes with an unknown key between, request order kept", 150, "quick"),
+            ("announce_port5", "5-digit port: accepted iff <= 65535", 200, "thorough"),
+            ("scrape_k1", "scrape, 1 hash", 100, "thorough"),
+            ("scrape_k2", "scrape, 2 hashes with an unknown key between, request order kept", 150, "thorough"),
             ("scrape_path_k1", "through Request::parse_http_get_path('/scrape?...')", 100, "thorough"),
         )
     ],
@@ -358,11 +358,14 @@ PROPS["C08"] = {
     "assumptions": ["storage.rs, common.rs, config.rs are compiled in place by harness/kani-ws (aquatic_ws itself cannot be built by Kani)"],
     "harnesses": [
         H(KW, "c08::c08_announce_n0", _C08A, "N=0", [], tier="thorough", cost=600, **_WS),
-        H(KW, "c08::c08_announce_lean", _C08A + " [identifiers concrete: the request uses the stored peer id or one fresh id; owners (worker id, slot key), event, left, clock, ages, deadlines, pending offer symbolic]", "N=1 (ownership), concrete identifiers", [], cost=500,
+    ] + [
+        H(KW, "c08::c08_announce_lean_%s" % n, _C08A + " [identifiers concrete; " + d + "; owners (worker id, slot key), event, left, clock, ages, deadlines, pending offer symbolic]", "N=1, concrete identifiers, " + d, [], cost=400, mem_gb=16, timeout=850,
           native_tests={"owned by another connection": ("replay-ws", "c08_ownership_other_worker_same_slot"),
                         "cached seeder count": ("replay-ws", "c08_seeder_to_leecher_counts"), "complete != stored": ("replay-ws", "c08_seeder_to_leecher_counts"),
                         "incomplete != stored": ("replay-ws", "c08_seeder_to_leecher_counts"), "left == 0 <=> seeder": ("replay-ws", "c08_seeder_to_leecher_counts"),
-                        "announce must set deadline": ("replay-ws", "c10_reannounce_refreshes_deadline")}, **_WS),
+                        "announce must set deadline": ("replay-ws", "c10_reannounce_refreshes_deadline")})
+        for n, d in (("same", "the request uses the STORED peer id (ownership: owner re-announces / stops, or another connection is ignored)"), ("fresh", "the request uses a fresh peer id (new entry next to the stored one)"))
+    ] + [
         H(KW, "c08::c08_announce_n1", _C08A, "N=1 (ownership), all identifiers symbolic", [], tier="thorough", cost=1000,
           native_tests={"owned by another connection": ("replay-ws", "c08_ownership_other_worker_same_slot"),
                         "seeder count": ("replay-ws", "c08_seeder_to_leecher_counts"), "stored seeders": ("replay-ws", "c08_seeder_to_leecher_counts"),
@@ -392,10 +395,10 @@ PROPS["C09"] = {
     "assumptions": PROPS["C08"]["assumptions"],
     "harnesses": [
         H(KW, "c08::c09_offers_n0_k1", _C09O, "N=0, 1 offer", [], tier="thorough", cost=600, **_WS),
-        H(KW, "c08::c09_offer_lean", "one offer (concrete ids) from a fresh sender with one stored receiver (symbolic owner / pending offer): forwarded iff not stopped and max_offers > 0, to the receiver's own connection, payload (sender id, offer id, info hash), sender records exactly (receiver, offer id) with deadline clock+max_offer_age, reply last and to the sender", "N=1 receiver, 1 offer, max_offers 0..2, concrete identifiers", [], cost=500,
-          native_tests={"offer must go to the receiving peer": ("replay-ws", "c09_answer_addressed_to_offerer")}, **_WS),
-        H(KW, "c08::c09_answer_lean", "answer (concrete ids) from a fresh peer to the stored peer or an absent one, offer id one of two: forwarded to the offering peer's connection <=> stored and that exact (answerer, offer id) pending; then consumed; otherwise error to the answerer (stored) or nothing (absent); announce reply last", "N=1, concrete identifiers, symbolic owner / pending offer / clock", [], cost=500,
-          native_tests={"answer must go to the offering peer": ("replay-ws", "c09_answer_addressed_to_offerer"), "answered offer still pending": ("replay-ws", "c09_answer_addressed_to_offerer")}, **_WS),
+        H(KW, "c08::c09_offer_lean", "one offer (concrete ids) from a fresh sender with one stored receiver (symbolic owner / pending offer): forwarded iff not stopped and max_offers > 0, to the receiver's own connection, payload (sender id, offer id, info hash), sender records exactly (receiver, offer id) with deadline clock+max_offer_age, reply last and to the sender", "N=1 receiver, 1 offer, max_offers 0..2, concrete identifiers", [], tier="thorough", cost=900, mem_gb=54, timeout=3600,
+          native_tests={"offer must go to the receiving peer": ("replay-ws", "c09_answer_addressed_to_offerer")}, ),
+        H(KW, "c08::c09_answer_lean", "answer (concrete ids) from a fresh peer to the stored peer or an absent one, offer id one of two: forwarded to the offering peer's connection <=> stored and that exact (answerer, offer id) pending; then consumed; otherwise error to the answerer (stored) or nothing (absent); announce reply last", "N=1, concrete identifiers, symbolic owner / pending offer / clock", [], cost=500, mem_gb=30, timeout=850,
+          native_tests={"answer must go to the offering peer": ("replay-ws", "c09_answer_addressed_to_offerer"), "answered offer still pending": ("replay-ws", "c09_answer_addressed_to_offerer")}, ),
         H(KW, "c08::c09_offer_one", "one offer from a fresh sender with one stored receiver: exactly one OfferOutMessage to the receiver's own connection (unless max_offers==0 or stopped), payload = (sender id, offer id, info hash), sender records exactly (receiver, offer id) with deadline clock+max_offer_age, reply last", "N=1 receiver, 1 offer, max_offers 0..2", [], tier="thorough", cost=900,
           native_tests={"offer must go to the receiving peer": ("replay-ws", "c09_answer_addressed_to_offerer")}, **_WS),
         H(KW, "c08::c09_offers_n1_k1", _C09O, "N=1, 1 offer (general harness)", [], tier="thorough", cost=1200, mem_gb=54, timeout=3600),
@@ -427,6 +430,13 @@ PROPS["C02"] = {
 }
 
 
+# C09 "distinct offers go to distinct peers, never to the sender, min(offers, max_offers, others) receivers": the receiver
+# selection kernel (ws extract_response_peers) is part of C09's quick tier; the offer-forwarding harnesses need > 44 GB (thorough)
+PROPS["C09"]["harnesses"] += [dict(h, tier=("quick" if h["name"].endswith(("_n0", "_n2")) else "thorough")) for h in PROPS["C02"]["harnesses"] if "c02_ws_extract" in h["name"]]
+PROPS["C09"]["bounds"] += "; receiver selection: swarms of 0..2 (4, 6 thorough) peers, every RNG state"
+PROPS["C09"]["outside"] += "; in the quick tier offer forwarding itself (handle_offers: zip of offers and selected receivers, expectation bookkeeping) is NOT exercised - c09_offer_* harnesses exhaust 44 GB and are thorough-only"
+
+
 def all_harnesses(prop):
     return list(PROPS[prop]["harnesses"])
 
@@ -437,7 +447,7 @@ def _pick(prop, *subs):
 PROPS["C12"] = {
     "level": "model_checking",
     "functions": ["udp Request::parse_bytes / Response::parse_bytes", "ws TwentyByteVisitor::visit_str", "http urldecode_20_bytes", "access list parse_info_hash",
-                  "udp handle_request / PeerMap::announce, http upsert_peer_and_get_response_peers with full-width numwant / left / peers_wanted"],
+                  "udp handle_request (connect, scrape) with full-width fields; the announce handlers (PeerMap::announce, upsert_peer_and_get_response_peers with full-width numwant / left) carry the same panic/overflow checks inside the C01 / C07 / C08 checks and are not repeated here"],
     "bounds": "UDP datagrams 0..120 B (256 B thorough), UDP replies 0..64 B (error replies excluded), ws identifier strings of 0,1,19..22 chars, http identifier strings of 0,19,20,21 units, access-list lines 0..42 B; "
               "handlers: all field values (i32::MIN numwant, negative left, ...). Every Kani harness checks panics, unwrap/expect, slice and array indexing, arithmetic overflow (dev profile), division by zero and pointer validity on every path",
     "outside": "simd-json (WebSocket JSON reader), httparse and the HTTP query-string splitter (memchr SIMD over symbolic bytes does not finish), serde_bencode reader, aquatic_peer_id (regex engine); heap use is not measurable by CBMC - only output container lengths are asserted (e.g. info_hashes.len() <= len/20)",
@@ -446,7 +456,7 @@ PROPS["C12"] = {
     "harnesses": [
         H(UP, "c12::c12_udp_response_any_%d" % n, "client-side reply parser: never panics; Ok(reply) implies the exact length relation (20+6n / 20+18n / 8+12k / 16)", "every byte string of exactly %d bytes, both family flags" % n, ["Response::parse_bytes"], cost=30)
         for n in (0, 3, 8, 16, 20, 26, 27, 38, 56)
-    ] + _pick("C13", "request_decode") + _pick("C15", "id_decode") + _pick("C14", "urldecode") + _pick("C11", "parse_info_hash") + _pick("C06", "c06_scrape_k1", "c06_connect") + _pick("C01", "small_n1") + _pick("C07", "small_n1") + _pick("C05", "forged"),
+    ] + _pick("C13", "request_decode") + _pick("C15", "id_decode") + _pick("C14", "urldecode") + _pick("C11", "parse_info_hash") + _pick("C06", "c06_scrape_k1", "c06_connect") + _pick("C05", "forged"),
 }
 
 
